@@ -131,6 +131,11 @@ func (it *segmentIterator) next() (record, error) {
 
 	// Read key, value and checksum.
 	recordSize := encodedRecordSize(keySize + valueSize)
+	if int64(it.offset)+int64(recordSize) > it.f.size {
+		// The record doesn't fit in the file, it's either truncated or the sizes are corrupted.
+		// Don't allocate memory based on sizes that can't be trusted.
+		return record{}, io.ErrUnexpectedEOF
+	}
 	data := make([]byte, recordSize)
 	copy(data, kvSizeBuf)
 	if _, err := io.ReadFull(it.r, data[6:]); err != nil {
